@@ -146,3 +146,112 @@ theorem bsearch_not_found {α : Type} [Inhabited α] (lt eq : α → Bool) (l : 
   · simp [h]
 
 end Atlas.Pending
+
+/-! ### every pending file is a file of the directory -/
+
+namespace Atlas.Pending
+
+
+theorem finish_sub {p l : List MFile} (h : finish p = .ok l) : l = p := by
+  unfold finish at h
+  split at h
+  · cases h
+  · cases h; rfl
+
+theorem skip_sub (all : List MFile) : ∀ f ∈ skipCheckpoints all, f ∈ all := by
+  intro f hf; exact (List.mem_filter.mp hf).1
+
+theorem outOfOrder_sub (cfg : Cfg) (m : List MFile) (revs : List Revision) (r0 : Revision) (idx : Nat) (s : List MFile)
+    (h : outOfOrder cfg m revs r0 idx = some s) : ∀ f ∈ s, f ∈ m := by
+  unfold outOfOrder at h
+  split at h
+  · split at h
+    · cases h
+      intro f hf
+      have := (List.mem_filter.mp hf).1
+      exact List.mem_of_mem_take (List.mem_of_mem_drop this)
+    · cases h
+  · cases h
+
+theorem normal_sub (cfg : Cfg) (m : List MFile) (revs : List Revision) (r0 last : Revision) (l : List MFile)
+    (h : normal cfg m revs r0 last = .ok l) : ∀ f ∈ l, f ∈ m := by
+  unfold normal at h
+  simp only at h
+  split at h
+  · split at h
+    · cases h
+    · cases h; exact fun f hf => hf
+  · rename_i idx0 _
+    split at h
+    · have := finish_sub h; subst this
+      exact fun f hf => List.mem_of_mem_drop hf
+    · have := finish_sub h; subst this
+      exact fun f hf => List.mem_of_mem_drop hf
+    · rename_i skipped _ hs
+      split at h
+      · have := finish_sub h; subst this
+        intro f hf
+        rcases List.mem_append.mp hf with h1 | h1
+        · exact outOfOrder_sub cfg m revs r0 _ skipped hs f h1
+        · exact List.mem_of_mem_drop h1
+      · cases h
+      · have := finish_sub h; subst this
+        exact fun f hf => List.mem_of_mem_drop hf
+
+theorem fromLastCheckpoint_sub (all : List MFile) : ∀ f ∈ filesFromLastCheckpoint all, f ∈ all := by
+  intro f hf
+  unfold filesFromLastCheckpoint at hf
+  split at hf
+  · exact hf
+  · exact List.mem_of_mem_drop hf
+
+theorem firstRun_sub (cfg : Cfg) (all : List MFile) (l : List MFile)
+    (h : (firstRun cfg all (skipCheckpoints all)).out = .ok l) : ∀ f ∈ l, f ∈ all := by
+  unfold firstRun at h
+  split at h
+  · cases h
+  · split at h
+    · split at h
+      · cases h
+      · simp only at h
+        split at h
+        · cases h
+        · cases h
+          exact fun f hf => skip_sub all f (List.mem_of_mem_drop hf)
+    · simp only at h
+      split at h
+      · cases h
+      · cases h
+        exact fromLastCheckpoint_sub all
+
+/-- **every pending file is a file of the directory** - whatever the revision table, the options and the
+execution order are. -/
+theorem pending_sub (cfg : Cfg) (all : List MFile) (revs : List Revision) (l : List MFile)
+    (h : (pending cfg all revs).out = .ok l) : ∀ f ∈ l, f ∈ all := by
+  unfold pending at h
+  simp only at h
+  split at h
+  · exact firstRun_sub cfg all l h
+  · exact firstRun_sub cfg all l h
+  · rename_i last r0 _ _
+    split at h
+    · split at h
+      · rename_i hfound
+        cases h
+        intro f hf
+        rcases List.mem_cons.mp hf with rfl | h1
+        · -- all[idx]! with idx < all.length
+          simp only [bsearch, Bool.and_eq_true, decide_eq_true_eq] at hfound
+          have hlt := hfound.1.1
+          rw [getElem!_pos all _ hlt]
+          exact List.getElem_mem hlt
+        · exact List.mem_of_mem_drop (skip_sub _ f h1)
+      · split at h
+        · cases h
+        · exact fun f hf => skip_sub all f (normal_sub cfg _ revs r0 last l h f hf)
+    · split at h
+      · exact fun f hf => skip_sub all f (normal_sub cfg _ revs r0 last l h f hf)
+      · cases h
+
+
+end Atlas.Pending
